@@ -1175,4 +1175,70 @@ def httpParse (pinned : Bool) (fs : Fields) (p : Obj) (f : List (Str × List Str
         | .error e => .error e
         | .ok v4 => .ok (mergeViews fs v1 v2 v3 v4)
 
+/-! ## the public entry points: what they are handed besides the document (round 5d)
+
+`UnmarshalJsonBytes / Reader / Map`, `UnmarshalKey`, `UnmarshalYaml… / Toml…`, `conf.LoadFrom…Bytes`, `httpx.Parse…` all end in
+`Unmarshaler.unmarshal(i, v)`: the source is decoded first (an empty / malformed text, a reader that fails: the decoder's
+error), then the target is looked at: `reflect.TypeOf(v).Kind() != reflect.Ptr` ⇒ `errValueNotSettable`, a document that is
+an object needs `Deref(type)` to be a struct (else `errTypeMismatch`), `ValidatePtr` refuses a nil pointer.  A `**T` target is
+allocated and filled.  At the pinned commit `reflect.TypeOf(nil).Kind()` panics for an untyped nil target
+(`Props.pinned_nil_target_panics`; fixes/C08-nil-target.patch).  A panic of the caller's reader is the caller's: it propagates. -/
+
+inductive Target where
+  | ptr            -- *T
+  | ptrptr         -- **T (nil inner pointer): allocated
+  | nilIface       -- untyped nil
+  | value          -- T, not a pointer
+  | nilPtr         -- (*T)(nil)
+  | ptrNonStruct   -- *int
+  deriving Repr, DecidableEq
+
+inductive Source where
+  | doc            -- a document was decoded
+  | empty          -- empty text / reader at EOF
+  | malformed      -- not JSON (truncated, over the body cap of rest/httpx)
+  | readErr        -- the reader returned an error
+  | readPanic      -- the reader panicked
+  deriving Repr, DecidableEq
+
+def Target.valid : Target → Bool
+  | .ptr | .ptrptr => true
+  | _ => false
+
+def entryPoint (c : Cfg) (tgt : Target) (src : Source) (ty : Ty) (j : J) : Except Err Val :=
+  match src with
+  | .readPanic => .error .panic
+  | .empty | .malformed | .readErr => .error .json
+  | .doc =>
+    match tgt with
+    | .nilIface => if c.pinned then .error .panic else .error .unsupported
+    | .value => .error .unsupported
+    | .nilPtr => .error .unsupported
+    | .ptrNonStruct => .error .mismatch
+    | .ptr | .ptrptr => unmarshal c ty j
+
+/-- `withJsonBody`: the body of a request is read iff `Content-Length > 0` and the content type names JSON -/
+def withJsonBody (contentLength : Int) (jsonType : Bool) : Bool := decide (contentLength > 0) && jsonType
+
+/-- `httpx.Parse` on a request as it arrives: the body counts only under `withJsonBody` (a chunked body, `Content-Length: -1`,
+or a body under another content type is not looked at), and then it must decode -/
+def httpParseReq (pinned : Bool) (fs : Fields) (p : Obj) (f : List (Str × List Str)) (h : List (Str × HVals))
+    (contentLength : Int) (jsonType : Bool) (src : Source) (b : J) : Except Err VFields :=
+  if withJsonBody contentLength jsonType then
+    match src with
+    | .doc => httpParse pinned fs p f h (some b)
+    | .readPanic =>
+      (match httpParsePath pinned fs p, httpParseForm pinned fs f, httpParseHeaders pinned fs h with
+       | .ok _, .ok _, .ok _ => .error .panic
+       | .error e, _, _ => .error e
+       | _, .error e, _ => .error e
+       | _, _, .error e => .error e)
+    | _ =>
+      (match httpParsePath pinned fs p, httpParseForm pinned fs f, httpParseHeaders pinned fs h with
+       | .ok _, .ok _, .ok _ => .error .json
+       | .error e, _, _ => .error e
+       | _, .error e, _ => .error e
+       | _, _, .error e => .error e)
+  else httpParse pinned fs p f h none
+
 end GoZero.C08
